@@ -22,6 +22,7 @@ func genJson(c *Ctx) string {
 	type field struct {
 		json string
 		typ  string
+		goName string
 	}
 	structs := map[string][]field{}
 	clientOK := true
@@ -66,7 +67,11 @@ func genJson(c *Ctx) string {
 					if name == "" || name == "-" {
 						continue
 					}
-					fs = append(fs, field{name, c.src1(fl.Type)})
+					goName := ""
+					if len(fl.Names) == 1 {
+						goName = fl.Names[0].Name
+					}
+					fs = append(fs, field{name, c.src1(fl.Type), goName})
 				}
 				structs[ts.Name.Name] = fs
 			}
@@ -115,6 +120,40 @@ func genJson(c *Ctx) string {
 	}
 	b.WriteString("(* generated client models: element of the message object -> paths of the leaves below it *)\n")
 	emit("client_paths", cm, corder)
+	// the same leaves with the Go field path that holds each of them: (Go path, JSON path)
+	type leaf struct {
+		gopath []string
+		jpath  []string
+	}
+	var flattenGo func(typ string, depth int) []leaf
+	flattenGo = func(typ string, depth int) []leaf {
+		typ = strings.TrimPrefix(typ, "*")
+		fs, ok := structs[typ]
+		if !ok || depth > 6 {
+			return []leaf{{}}
+		}
+		var out []leaf
+		for _, f := range fs {
+			for _, l := range flattenGo(f.typ, depth+1) {
+				out = append(out, leaf{append([]string{f.goName}, l.gopath...), append([]string{f.json}, l.jpath...)})
+			}
+		}
+		return out
+	}
+	var citems []string
+	for _, f := range root {
+		var ls []string
+		for _, l := range flattenGo(f.typ, 0) {
+			var q []string
+			for _, x := range l.jpath {
+				q = append(q, coqString(x))
+			}
+			ls = append(ls, fmt.Sprintf("(%s, %s)", coqString(strings.Join(l.gopath, ".")), coqList(q)))
+		}
+		citems = append(citems, fmt.Sprintf("(%s, %s)", coqString(f.json), coqList(ls)))
+	}
+	b.WriteString("(* generated client models: element of the message object -> (Go field path, JSON path) of each leaf *)\n")
+	fmt.Fprintf(&b, "Definition client_fields : list (string * list (string * list string)) :=\n  %s.\n\n", coqListNL(citems, "  "))
 
 	// ---- OpenAPI document ----
 	openOK := true
